@@ -718,7 +718,7 @@ type scope struct {
 	anc      []string // content names of enclosing documents
 	yield    bool
 	inLayout bool
-	inBlock  bool // somewhere below a contentFor block
+	inBlock  bool     // somewhere below a contentFor block
 	defined  []string // content names known to be defined at this point (generation bias only)
 	hidden   []string // names that may not be read here or below (data keys of an enclosing contentOf default block)
 }
@@ -784,12 +784,12 @@ func (g *G) text() Item {
 func (g *G) emit(sc scope) Item {
 	if len(sc.guarded) > 0 && g.intn(3, "eg") == 0 {
 		n := g.pick(sc.guarded, "egn")
-		if g.intn(5, "egr") == 0 {
+		if g.intn(5, "egr") == 3 {
 			return Item{K: "emit", N: n} // unguarded: an error when the use site passes no such key
 		}
 		return Item{K: "if", N: n, Body: []Item{{K: "emit", N: n}}}
 	}
-	if g.intn(200, "eu") == 0 {
+	if g.intn(200, "eu") == 137 { // (rapid favours small values: a rare event must not sit at 0)
 		return Item{K: "emit", N: "u0"} // unknown identifier: both sides must fail
 	}
 	return Item{K: "emit", N: g.pick(sc.names, "en")}
@@ -854,9 +854,22 @@ var cofKeys = []string{"c0", "c1", "s0"}
 func (g *G) doc(sc scope, max int) []Item {
 	n := 1 + g.intn(max, "dn")
 	var out []Item
+	var pending []string // names defined in this document that still get a use
 	for i := 0; i < n; i++ {
+		if len(pending) > 0 && g.intn(2, "pu") == 0 {
+			out = append(out, g.cof(&sc, pending[0]))
+			pending = pending[1:]
+		}
 		its := g.item(&sc)
 		out = append(out, its...)
+		if len(its) == 1 && its[0].K == "cfor" && g.intn(3, "pd") > 0 {
+			pending = append(pending, its[0].N)
+		}
+	}
+	for _, name := range pending {
+		if g.intn(3, "pf") > 0 {
+			out = append(out, g.cof(&sc, name))
+		}
 	}
 	return out
 }
@@ -936,7 +949,7 @@ func (g *G) item(sc *scope) []Item {
 	case "cfor":
 		j := g.intn(len(sc.own), "cj")
 		in := scope{names: without(stable, sc.hidden), guarded: without([]string{"c0", "c1"}, sc.hidden), depth: sc.depth, nest: sc.nest + 1,
-			own: sc.own, ownMax: j, anc: sc.anc, hidden: sc.hidden, inBlock: true}
+			own: sc.own, ownMax: j, anc: sc.anc, hidden: sc.hidden, inBlock: true, defined: sc.defined}
 		if g.textual {
 			in.guarded = nil
 		}
@@ -944,53 +957,61 @@ func (g *G) item(sc *scope) []Item {
 		sc.defined = with(sc.defined, sc.own[j])
 		return []Item{it}
 	case "cof":
-		cands := append(append([]string{"zz"}, sc.own[:sc.ownMax]...), sc.anc...)
-		it := Item{K: "cof", N: g.pick(cands, "on")}
-		var known []string
-		for _, n := range sc.defined {
-			for _, c := range cands {
-				if n == c {
-					known = append(known, n)
-				}
-			}
-		}
-		isKnown := false
-		if len(known) > 0 && g.intn(3, "ok") > 0 {
-			it.N = g.pick(known, "okn")
-		}
-		for _, n := range known {
-			isKnown = isKnown || n == it.N
-		}
-		it.Data = g.data(*sc, cofKeys, 2, "od")
-		if sc.inBlock && it.N != "zz" && !g.textual {
-			// A stored block used from inside another stored block: whether it sees the outer block's
-			// data (scope of use) or not (scope of definition) is not stated. Passing every key a
-			// block may read makes both readings agree.
-			it.Data = nil
-			for _, k := range cofKeys {
-				kv := g.value(*sc, "odx")
-				kv.K = k
-				it.Data = append(it.Data, kv)
-			}
-		}
-		defP := 2
-		if !isKnown {
-			defP = 8 // mostly give an undefined name a default block, so that errors do not dominate
-		}
-		if g.intn(10, "odf") < defP {
-			in := *sc
-			in.nest++
-			in.top = false
-			// whether the data map is visible to the default block is not stated: it never looks
-			in.names = without(sc.names, keysOf(it.Data))
-			in.guarded = without(sc.guarded, keysOf(it.Data))
-			in.hidden = with(sc.hidden, keysOf(it.Data)...)
-			it.Def = true
-			it.Body = g.doc(in, 2)
-		}
-		return []Item{it}
+		return []Item{g.cof(sc, "")}
 	}
 	return nil
+}
+
+// cof generates a contentOf of the wanted name (or of a drawn one).
+func (g *G) cof(sc *scope, want string) Item {
+	cands := append(append([]string{"zz"}, sc.own[:sc.ownMax]...), sc.anc...)
+	it := Item{K: "cof", N: g.pick(cands, "on")}
+	if want != "" {
+		it.N = want
+	}
+	var known []string
+	for _, n := range sc.defined {
+		for _, c := range cands {
+			if n == c {
+				known = append(known, n)
+			}
+		}
+	}
+	isKnown := false
+	if want == "" && len(known) > 0 && g.intn(3, "ok") > 0 {
+		it.N = g.pick(known, "okn")
+	}
+	for _, n := range known {
+		isKnown = isKnown || n == it.N
+	}
+	it.Data = g.data(*sc, cofKeys, 2, "od")
+	if sc.inBlock && it.N != "zz" && !g.textual {
+		// A stored block used from inside another stored block: whether it sees the outer block's
+		// data (scope of use) or not (scope of definition) is not stated. Passing every key a
+		// block may read makes both readings agree.
+		it.Data = nil
+		for _, k := range cofKeys {
+			kv := g.value(*sc, "odx")
+			kv.K = k
+			it.Data = append(it.Data, kv)
+		}
+	}
+	defP := 2
+	if !isKnown {
+		defP = 8 // mostly give an undefined name a default block, so that errors do not dominate
+	}
+	if g.intn(10, "odf") < defP {
+		in := *sc
+		in.nest++
+		in.top = false
+		// whether the data map is visible to the default block is not stated: it never looks
+		in.names = without(sc.names, keysOf(it.Data))
+		in.guarded = without(sc.guarded, keysOf(it.Data))
+		in.hidden = with(sc.hidden, keysOf(it.Data)...)
+		it.Def = true
+		it.Body = g.doc(in, 2)
+	}
+	return it
 }
 
 func (g *G) partial(sc *scope) []Item {
@@ -999,7 +1020,7 @@ func (g *G) partial(sc *scope) []Item {
 	visible := append(append([]string{}, sc.own[:sc.ownMax]...), sc.anc...)
 	own := g.newDoc()
 	body := scope{names: with(sc.names, keysOf(it.Data)...), guarded: without(sc.guarded, keysOf(it.Data)), depth: sc.depth + 1, top: true,
-		own: own, ownMax: len(own), anc: visible, yield: sc.yield, hidden: sc.hidden, inBlock: sc.inBlock}
+		own: own, ownMax: len(own), anc: visible, yield: sc.yield, hidden: sc.hidden, inBlock: sc.inBlock, defined: sc.defined}
 	it.Body = g.doc(body, 4)
 	layP := 3
 	if sc.inLayout {
@@ -1009,7 +1030,7 @@ func (g *G) partial(sc *scope) []Item {
 		lown := g.newDoc()
 		// which scope a layout sees beyond the caller's is not stated: it reads only names nobody rebinds
 		ls := scope{names: without(stable, sc.hidden), depth: sc.depth + 1, top: true, own: lown, ownMax: len(lown), anc: visible, yield: true,
-			inLayout: true, hidden: sc.hidden, inBlock: sc.inBlock}
+			inLayout: true, hidden: sc.hidden, inBlock: sc.inBlock, defined: sc.defined}
 		lb := g.doc(ls, 4)
 		if !hasYield(lb) || (g.textual && !hasSureYield(lb)) {
 			pos := g.intn(len(lb)+1, "py")
@@ -1298,10 +1319,10 @@ func TestProp(t *testing.T) {
 	})
 
 	// (R) random trees
-	r.Rapid("trees", r.Pick(5000, 60000), func(t *rapid.T) *vk.Fail {
+	r.Rapid("trees", r.Pick(15000, 60000), func(t *rapid.T) *vk.Fail {
 		return check(r, genCase(t, false))
 	})
-	r.Rapid("textual", r.Pick(2500, 30000), func(t *rapid.T) *vk.Fail {
+	r.Rapid("textual", r.Pick(6000, 30000), func(t *rapid.T) *vk.Fail {
 		return check(r, genCase(t, true))
 	})
 }
